@@ -200,6 +200,60 @@ func (c *Ctx) adoptionTrigger() {
 			good = true
 		}
 	}
+	if !good {
+		// no flag: the witness itself. The uncached read is reached only where, on every path, some revision has just
+		// been seen without a controller, and no write is reachable from the entry without passing that read.
+		var reads, writes []*ast.CallExpr
+		for _, g := range gated {
+			call := g.(*ast.CallExpr)
+			isRead := false
+			for _, s := range c.G.Sites {
+				if s.Call == call && s.Class == "read" {
+					isRead = true
+				}
+			}
+			for _, s := range c.sitesOf(fi) {
+				if s.Top == call && s.Class == "read" && s.Resource == "statefulsets.pingcap" {
+					isRead = true
+				}
+			}
+			if isRead {
+				reads = append(reads, call)
+			} else {
+				writes = append(writes, call)
+			}
+		}
+		if len(reads) > 0 {
+			direct := true
+			for _, r := range reads {
+				st := an.StateAtExpr(r)
+				if !st.Reachable() {
+					continue
+				}
+				if ok2, wit := orphanSeen(st); !ok2 {
+					direct = false
+					why = fmt.Sprintf("the uncached read at %s is reached without a revision having been seen without a controller; facts on one such path: %s", c.P.Pos(r.Pos()), clip(wit, 400))
+				}
+			}
+			if direct {
+				var stops []ast.Node
+				for _, r := range reads {
+					stops = append(stops, r)
+				}
+				if len(fi.Decl.Body.List) > 0 {
+					first := fi.Decl.Body.List[0]
+					aU := fn.FromUntil(first, gf.TrueState(), stops...)
+					for _, w := range writes {
+						if aU.StateAtExpr(w).Reachable() {
+							direct = false
+							why = fmt.Sprintf("the write at %s is reachable without passing the uncached read that is gated by an orphan", c.P.Pos(w.Pos()))
+						}
+					}
+				}
+			}
+			good = direct
+		}
+	}
 	c.Check(good, "C02.8-adoption-only-with-an-orphan", fi.Obj.Name()+": gate of the adoption work", fi.Decl.Pos(),
 		"the uncached read and the revision writes are reached only after some listed revision was seen without a controller",
 		"revision adoption work runs (and writes) on reconciles that have nothing to adopt: "+why)
